@@ -126,12 +126,14 @@ package schema
 //@ spec asFloatOK(d any) bool = d != nil && numericKind(kindOf(d))
 
 //@ func asInt(d) -> res, err
+//@   ensures err != nil ==> leafCE(err)
 //@   ensures (err == nil) == asIntOK(d)
 //@   ensures typeOf(d) == type(int64) ==> res == d.(int64)
 //@   ensures err != nil ==> isCE(err) && fresh(err)
 //@   assigns nothing
 
 //@ func IntSchema.Serialize(i, d) -> res, err
+//@   ensures err != nil ==> leafCE(err)
 //@   ensures (err == nil) == (asIntOK(d) && inBoundsI(i.MinValue, i.MaxValue, res.(int64)))
 //@   ensures typeOf(res) == type(int64)
 //@   ensures typeOf(d) == type(int64) ==> res == d
@@ -153,12 +155,14 @@ package schema
 //@   assigns nothing
 
 //@ func asFloat(d) -> res, err
+//@   ensures err != nil ==> leafCE(err)
 //@   ensures (err == nil) == asFloatOK(d)
 //@   ensures typeOf(d) == type(float64) ==> same(res, d.(float64))
 //@   ensures err != nil ==> isCE(err) && fresh(err)
 //@   assigns nothing
 
 //@ func FloatSchema.Serialize(f, d) -> res, err
+//@   ensures err != nil ==> leafCE(err)
 //@   ensures (err == nil) == (asFloatOK(d) && inBoundsF(f.MinValue, f.MaxValue, res.(float64)))
 //@   ensures typeOf(res) == type(float64)
 //@   ensures typeOf(d) == type(float64) ==> res == d
@@ -183,6 +187,7 @@ package schema
 //@ spec asStringOK(d any) bool = d != nil && (kindOf(d) == KindString || (kindOf(d) >= KindInt && kindOf(d) <= KindUintptr) || (kindOf(d) == KindSlice && (kind(elemT(typeOf(d))) == KindUint8 || kind(elemT(typeOf(d))) == KindInt32)))
 
 //@ func asString(d) -> res, err
+//@   ensures err != nil ==> leafCE(err)
 //@   ensures (err == nil) == asStringOK(d)
 //@   ensures typeOf(d) == type(string) ==> res == d.(string)
 //@   ensures err != nil ==> isCE(err) && fresh(err)
@@ -194,6 +199,7 @@ package schema
 //@   assigns nothing
 
 //@ func StringSchema.Serialize(s, d) -> res, err
+//@   ensures err != nil ==> leafCE(err)
 //@   ensures (err == nil) == (asStringOK(d) && strOK(s, res.(string)))
 //@   ensures typeOf(res) == type(string)
 //@   ensures typeOf(d) == type(string) ==> res == d
@@ -298,6 +304,7 @@ package schema
 //@   assigns nothing
 
 //@ func asBool(d) -> res, err
+//@   ensures err != nil ==> leafCE(err)
 //@   ensures (err == nil) == (d != nil && kindOf(d) == KindBool)
 //@   ensures typeOf(d) == type(bool) ==> res == d.(bool)
 //@   ensures err != nil ==> isCE(err) && fresh(err)
@@ -333,10 +340,15 @@ package schema
 
 //@ func AbstractListSchema.Validate(l, data) -> err
 //@   ensures (err == nil) == (kindOf(data) == KindSlice && sizeOK(l.MinValue, l.MaxValue, listLen(data)) && (forall j int :: 0 <= j && j < listLen(data) ==> validOK(l.ItemsValue, listItem(data, j))))
+//@   ensures err != nil && kindOf(data) == KindSlice && sizeOK(l.MinValue, l.MaxValue, listLen(data)) ==> 0 <= i && i < listLen(data) && !validOK(l.ItemsValue, listItem(data, i)) && (forall j int :: 0 <= j && j < i ==> validOK(l.ItemsValue, listItem(data, j)))
+//@   ensures err != nil && kindOf(data) == KindSlice && sizeOK(l.MinValue, l.MaxValue, listLen(data)) ==> err == addedSeg(validErr(l.ItemsValue, listItem(data, i)), sprintf1("[%d]", i))
+//@   ensures err != nil && !(kindOf(data) == KindSlice && sizeOK(l.MinValue, l.MaxValue, listLen(data))) ==> leafCE(err)
 //@   loop 1 invariant 0 <= i && forall j int :: 0 <= j && j < i ==> validOK(l.ItemsValue, listItem(data, j))
 
 //@ func AbstractListSchema.Unserialize(l, data) -> res, err
 //@   ensures (err == nil) == (kindOf(data) == KindSlice && sizeOK(l.MinValue, l.MaxValue, listLen(data)) && (forall j int :: 0 <= j && j < listLen(data) ==> unserOK(l.ItemsValue, listItem(data, j))))
+//@   ensures err != nil && kindOf(data) == KindSlice && sizeOK(l.MinValue, l.MaxValue, listLen(data)) ==> 0 <= i && i < listLen(data) && !unserOK(l.ItemsValue, listItem(data, i)) && (forall j int :: 0 <= j && j < i ==> unserOK(l.ItemsValue, listItem(data, j))) && err == addedSeg(unserErr(l.ItemsValue, listItem(data, i)), sprintf1("[%d]", i))
+//@   ensures err != nil && !(kindOf(data) == KindSlice && sizeOK(l.MinValue, l.MaxValue, listLen(data))) ==> leafCE(err)
 //@   loop 1 invariant 0 <= i && forall j int :: 0 <= j && j < i ==> unserOK(l.ItemsValue, listItem(data, j))
 
 //@ func AbstractListSchema.Serialize(l, data) -> res, err
@@ -373,7 +385,7 @@ package schema
 //@ func ObjectSchema.validatePropertyInterdependenciesIfUnset(o, rawData, propertyID, property) -> err
 //@   requires property != nil
 //@   ensures (err == nil) == unsetOK(property, rawData)
-//@   ensures err != nil ==> isCE(err) && fresh(err)
+//@   ensures err != nil ==> isCE(err) && fresh(err) && pathIs1(err, propertyID)
 //@   loop 1 invariant forall j int :: 0 <= j && j <= idx ==> !(property.RequiredIfValue[j] in rawData)
 //@   loop 2 invariant forall j int :: 0 <= j && j <= idx ==> !(property.RequiredIfNotValue[j] in rawData)
 //@   assigns nothing
@@ -381,7 +393,7 @@ package schema
 //@ func ObjectSchema.validatePropertyInterdependenciesIfSet(o, rawData, propertyID, property) -> err
 //@   requires property != nil
 //@   ensures (err == nil) == setOK(property, rawData)
-//@   ensures err != nil ==> isCE(err) && fresh(err)
+//@   ensures err != nil ==> isCE(err) && fresh(err) && pathIs1(err, propertyID)
 //@   loop 1 invariant forall j int :: 0 <= j && j <= idx ==> !(property.ConflictsValue[j] in rawData)
 //@   assigns nothing
 
@@ -403,7 +415,8 @@ package schema
 //@   assigns o.defaultValues
 
 //@ func ObjectSchema.invalidKeyError(o, value) -> err
-//@   ensures err != nil && isCE(err) && fresh(err)
+//@   trusted
+//@   ensures err != nil && isCE(err) && fresh(err) && len(err.(*ConstraintError).Path) == 0
 //@   assigns nothing
 
 //@ func ObjectSchema.applySubObjectDefaultValues(o, propertyID, property, rawData)
@@ -473,3 +486,56 @@ package schema
 //@   ensures err == nil && kindOf(data) == KindMap ==> (forall k string :: k in result.(map[string]any) ==> k in o.PropertiesValue && finalForm(o, rv_of(data), old(o.defaultValues), result.(map[string]any), k))
 //@   ensures err == nil && kindOf(data) == KindMap ==> (forall j int :: 0 <= j && j < rv_len(rv_of(data)) ==> typeOf(rv_iface(rv_key(rv_of(data), j))) == type(string) && skey(rv_of(data), j) in result.(map[string]any))
 //@   ensures err == nil && kindOf(data) == KindMap ==> (forall k string :: k in o.PropertiesValue && !supplied(rv_of(data), k) && k in old(o.defaultValues) ==> k in result.(map[string]any))
+
+// ---------------------------------------------------------------------------------------------
+// C17: the error path leads to the offending element
+// ---------------------------------------------------------------------------------------------
+
+//@ abstract validErr(t Type, d any) error
+//@ abstract unserErr(t Type, d any) error
+//@ abstract serErr(t Type, d any) error
+//@ abstract addedSeg(err error, seg string) error
+//@ interface Type.Validate(this, data) -> err
+//@   names (err == nil) == validOK(this, data)
+//@   names err == validErr(this, data)
+//@   assigns nothing
+//@ interface Type.Unserialize(this, data) -> res, err
+//@   names (err == nil) == unserOK(this, data)
+//@   names err == nil ==> res == unserV(this, data)
+//@   names err == unserErr(this, data)
+//@   assigns nothing
+//@ interface Type.Serialize(this, data) -> res, err
+//@   names (err == nil) == serOK(this, data)
+//@   names err == nil ==> res == serV(this, data)
+//@   names err == serErr(this, data)
+//@   assigns nothing
+
+//@ spec pathPrepended(c *ConstraintError, seg string, oldPath []string) bool = len(c.Path) == len(oldPath) + 1 && c.Path[0] == seg && (forall i int :: 0 <= i && i < len(oldPath) ==> c.Path[i+1] == old(oldPath[i]))
+
+//@ func ConstraintError.AddPathSegment(c, pathSegment) -> res
+//@   ensures res == c
+//@   ensures pathPrepended(c, pathSegment, old(c.Path))
+//@   assigns c.Path
+
+//@ func ConstraintErrorAddPathSegment(err, pathSegment) -> res
+//@   names res == addedSeg(err, pathSegment)
+//@   ensures ceOf(err) == nil ==> res == err
+//@   ensures ceOf(err) != nil ==> typeOf(res) == type(*ConstraintError) && res.(*ConstraintError) == ceOf(err) && pathPrepended(ceOf(err), pathSegment, old(ceOf(err).Path))
+//@   ensures (res == nil) == (err == nil)
+
+//@ spec leafCE(err error) bool = isCE(err) && len(err.(*ConstraintError).Path) == 0
+//@ spec pathIs1(err error, seg string) bool = isCE(err) && len(err.(*ConstraintError).Path) == 1 && err.(*ConstraintError).Path[0] == seg
+
+//@ func ObjectSchema.validateMap(o, data) -> err
+//@   requires data != nil
+//@   ensures err == nil ==> (forall k string :: k in data ==> k in o.PropertiesValue && pvalidOK(o.PropertiesValue[k], data[k]))
+//@   ensures err == nil ==> (forall k string :: k in o.PropertiesValue ==> ruleOK(o.PropertiesValue[k], k, data))
+//@   ensures err != nil && (forall k string :: k in o.PropertiesValue ==> ruleOK(o.PropertiesValue[k], k, data)) ==> (exists k string :: k in data && (!(k in o.PropertiesValue) ? leafCE(err) : (!pvalidOK(o.PropertiesValue[k], data[k]) && err == addedSeg(pvalidErr(o.PropertiesValue[k], data[k]), k))))
+//@   loop 1 invariant forall k string :: k in visited ==> k in o.PropertiesValue && pvalidOK(o.PropertiesValue[k], data[k])
+
+//@ abstract pvalidOK(p *PropertySchema, d any) bool
+//@ abstract pvalidErr(p *PropertySchema, d any) error
+//@ func PropertySchema.Validate(p, data) -> err
+//@   names (err == nil) == pvalidOK(p, data)
+//@   names err == pvalidErr(p, data)
+//@   ensures err == validErr(p.TypeValue, data)
